@@ -20,7 +20,7 @@ pub fn make_config(fri: &crate::kit::FriSc) -> SC {
     let fri_params = p3_fri::FriParameters {
         log_blowup: fri.log_blowup,
         log_final_poly_len: fri.log_final_poly_len,
-        max_log_arity: crate::kit::FRI_MAX_LOG_ARITY,
+        max_log_arity: MAX_LOG_ARITY,
         num_queries: crate::kit::FRI_NUM_QUERIES,
         commit_proof_of_work_bits: fri.commit_pow_bits,
         query_proof_of_work_bits: fri.query_pow_bits,
